@@ -219,6 +219,26 @@ def ptm5_rule(repo, rep):
         rep.fail("R-C09-3", fi.file, fi.node.lineno, fi.qualname, "regrid guard", "the spectrum is regridded (and rescaled) even when the cutoff is a grid frequency")
 
 
+def _separating_tests(scope):
+    """{(rectangle, high-edge slot)} for comparisons `high edge of one rectangle <= low edge of the other (same axis)` found in scope,
+    rectangles being two 4-tuples unpacked as (low-x, low-y, high-x, high-y)."""
+    unp = [n for n in ast.walk(scope) if isinstance(n, ast.Assign) and isinstance(n.targets[0], ast.Tuple) and len(n.targets[0].elts) == 4
+           and all(isinstance(e, ast.Name) for e in n.targets[0].elts)]
+    if len(unp) != 2:
+        return None
+    pos = {}
+    for k, u in enumerate(unp):
+        for i, e in enumerate(u.targets[0].elts):
+            pos[e.id] = (k, i)
+    good = set()
+    for n in ast.walk(scope):
+        if isinstance(n, ast.Compare) and len(n.ops) == 1 and isinstance(n.ops[0], ast.LtE) and isinstance(n.left, ast.Name) and isinstance(n.comparators[0], ast.Name):
+            a_, b_ = pos.get(n.left.id), pos.get(n.comparators[0].id)
+            if a_ and b_ and a_[0] != b_[0] and a_[1] in (2, 3) and b_[1] == a_[1] - 2:
+                good.add((a_[0], a_[1]))
+    return good
+
+
 def bbox_rule(repo, rep):
     fi = repo.func(f"{PART}.bbox")
     cfg = CFG(fi.node)
@@ -285,7 +305,8 @@ def bbox_rule(repo, rep):
                     if isinstance(r, ast.Raise):
                         exc = r.exc
                         nm = unparse(exc.func) if isinstance(exc, ast.Call) else unparse(exc)
-                        if nm == "ValueError" and any(isinstance(c, ast.Call) and call_name(c) == "is_overlap" for c in ast.walk(n)):
+                        if nm == "ValueError" and (any(isinstance(c, ast.Call) and call_name(c) == "is_overlap" for c in ast.walk(n))
+                                                   or _separating_tests(n) == {(0, 2), (1, 2), (0, 3), (1, 3)}):
                             raise_node = n
         if isinstance(n, ast.Call) and isinstance(n.func, ast.Attribute) and n.func.attr == "where" and mask_node is None:
             mask_node = n
